@@ -566,6 +566,15 @@ func runC35Streaming(rc *RunCtx) (*Violation, error) {
 		if c.yieldEvery > 0 {
 			c.yieldEvery = max(c.yieldEvery, n/min(avgOf(c.sizes), avgOf(c.consSizes))/400+1)
 		}
+		if n >= 512*1024 && g.Chance(1, 3) {
+			// a consumer that asks for whole hash blocks (256 KiB) and more at a time through ONE reused
+			// buffer, fed by a body that delivers what is asked for: whatever the streaming hasher keeps
+			// of the caller's slice after Write returned is overwritten by the next read
+			c.consumer = 0
+			c.sizes = nil
+			c.consSizes = [][]int{{256 * 1024}, {300000}, {1 << 20}, {256 * 1024, 1, 512 * 1024}}[g.Int(4)]
+			rc.Stats.Inc("probe.c35.block_sized_reads_through_reused_buffer")
+		}
 		cases = append(cases, c)
 		if os.Getenv("VERIF_DEBUG_C35") != "" {
 			fmt.Fprintf(os.Stderr, "C35CASE n=%d kind=%d sizes=%v eof=%v failAt=%d ye=%d consumer=%d cons=%v\n", n, c.kind, c.sizes, c.eofData, c.failAt, c.yieldEvery, c.consumer, c.consSizes)
